@@ -90,8 +90,11 @@ CLAIMS = {
             "shape()/shape_color() calls in order for every setter history (C12_layers, induction over the history); C12_subpaths: "
             "for EVERY matrix, margin and built-in shape the d attribute path() writes for a layer is read by the specification's "
             "path reader as exactly one sub-path per dark module anchored at (column+margin, row+margin), row-major, none else "
-            "(decimal numbers via core's Nat.toDigits lemmas, the M splitter, the six shape bodies). The XML-tokenizer part of "
-            "the document-level statement is evaluated, not proved (partial): on every run Spec.SvgParse (an XML-subset recogniser "
+            "(decimal numbers via core's Nat.toDigits lemmas, the M splitter, the six shape bodies); C12_wellformed / C12_document: "
+            "for every history of setter calls (colour arguments RGB(A) arrays or strings free of quote, '<', '&'), every image "
+            "string, every built-in frame shape and every matrix of a legal size, the rendering is well-formed and passes the WHOLE "
+            "reading Spec.SvgParse.check demands (generic printer/recogniser round trip + string plumbing of the format! pieces + "
+            "numbers of the frame only contain digits, '-', '.'). On every run Spec.SvgParse (an XML-subset recogniser "
             "in Lean) reads the REAL rendering: well-formed, viewBox/background, per layer exactly one sub-path per dark module "
             "in place, colours, one image element whose un-escaped href is the string. Defect found and fixed (href was not escaped).",
             "Trusted: Lean kernel; hand model tied by byte-exact string correspondence; Spec.SvgParse as the reading of 'well-formed' and 'anchored at'.",
